@@ -35,6 +35,7 @@ type mObs struct {
 	Pendn  map[string]int                 `json:"pendn"`
 	Rnd    map[string]mRound              `json:"rnd"`
 	Tasks  []task                         `json:"tasks"`
+	Space  map[string]bool                `json:"space"`
 }
 type mOut struct {
 	Res      string   `json:"res"`
@@ -67,6 +68,7 @@ type behaviour struct {
 	Acl     []string            `json:"acl"`
 	Kv      []string            `json:"kv"`
 	Changes []string            `json:"changes"`
+	NoSpace []string            `json:"nospace"`
 	Steps   []mStep             `json:"steps"`
 	// replays carry the original file name
 	Name string `json:"name,omitempty"`
@@ -88,10 +90,10 @@ func idxText(h []string) string {
 
 // runBehaviour replays one behaviour on a fresh world. Returns the number of steps executed.
 func runBehaviour(j *judge, b *behaviour) int {
-	w := newWorld(b.Peers, b.PeerSeq, first(b.Acl), first(b.Kv))
+	w := newWorld(b.Peers, b.PeerSeq, first(b.Acl), first(b.Kv), b.NoSpace...)
 	defer w.close()
 	j.stop = false
-	j.tag = fmt.Sprintf("p%d/t%d/a%d/k%d", len(b.Peers), len(b.Trees), len(b.Acl), len(b.Kv))
+	j.tag = fmt.Sprintf("p%d/t%d/a%d/k%d/s%d", len(b.Peers), len(b.Trees), len(b.Acl), len(b.Kv), len(b.NoSpace))
 	ids := append(append(append([]string{}, b.Trees...), b.Acl...), b.Kv...)
 	done := 0
 	for k, s := range b.Steps {
@@ -113,6 +115,8 @@ func runBehaviour(j *judge, b *behaviour) int {
 			w.flip(s.P)
 		case "Restart":
 			w.restart(j, s.P)
+		case "RestartEdit":
+			w.restartEdit(j, s.P, s.I, s.C)
 		case "IndexApply":
 			u := w.indexApply(j, s.P)
 			key += "/" + updKind(u)
@@ -129,6 +133,12 @@ func runBehaviour(j *judge, b *behaviour) int {
 			key += "/" + res
 			if res != s.Out.Res && !j.stop {
 				j.drift("%s: type check ended with %q, the specification says %q", at, res, s.Out.Res)
+			}
+		case "RoundPush":
+			res := w.roundPush(j, s.P)
+			key += "/" + res
+			if res != s.Out.Res && !j.stop {
+				j.drift("%s: push ended with %q, the specification says %q", at, res, s.Out.Res)
 			}
 		case "RoundDiff":
 			res, reqs := w.roundDiff(j, s.P)
@@ -169,6 +179,10 @@ func runBehaviour(j *judge, b *behaviour) int {
 func (w *world) compare(j *judge, at string, ids []string, o *mObs) {
 	for _, p := range w.order {
 		n := w.nodes[p]
+		if o.Space != nil && n.hasSpace() != o.Space[p] {
+			j.drift("%s: %s holds the space: %v, the specification says %v", at, p, n.hasSpace(), o.Space[p])
+			return
+		}
 		v, _ := n.index()
 		dec := w.decode(v)
 		for _, id := range ids {
